@@ -11,7 +11,8 @@ HARNESS = 'c11.cpp'
 SOURCES = ['src/geometry/Pose3D.cpp', 'src/geometry/Pose2D.cpp', 'src/geometry/Position2D.cpp', 'src/geometry/Position3D.cpp',
            'src/geometry/Twist2D.cpp', 'src/geometry/Twist3D.cpp', 'src/geometry/PoseAndTwist2D.cpp',
            'src/geometry/PoseAndTwist3D.cpp', 'src/geometry/Ellipse.cpp', 'src/transform/SmartRotation3D.cpp']
-PROOF_MODULES = ['RomeaProofs.Properties.C11', 'RomeaProofs.Bridge.C11', 'RomeaProofs.Bridge.C11Cor']
+PROOF_MODULES = ['RomeaProofs.Properties.C11', 'RomeaProofs.Bridge.C11', 'RomeaProofs.Bridge.C11Cor',
+                 'RomeaProofs.Bridge.C11Ellipse', 'RomeaProofs.Bridge.C11EllipseCor']
 TRUSTED = ['Eigen::Affine3d::rotation() (polar factor via JacobiSVD) is a model parameter: the theorems assume it returns a '
            'rotation matrix unchanged; the driver uses the identity function and the tie compares within 1e-10 relative',
            'Eigen::JacobiSVD on the 2x2 covariance is a model parameter with the contract IsEig2 (orthonormal U, descending '
@@ -514,7 +515,13 @@ def oracle(case, out, stats):
 BRIDGE_SPEC = {
     'id': 'C11',
     'headers': ['romea_core_common/math/Matrix.hpp'],
-    'sources': ['src/geometry/Pose3D.cpp', 'src/geometry/Twist3D.cpp', 'src/geometry/PoseAndTwist3D.cpp'],
+    'sources': ['src/geometry/Pose3D.cpp', 'src/geometry/Twist3D.cpp', 'src/geometry/PoseAndTwist3D.cpp',
+                'src/geometry/Ellipse.cpp', 'src/geometry/Position2D.cpp', 'src/geometry/Pose2D.cpp'],
+    # the ellipse: `Eigen::JacobiSVD<Eigen::MatrixXd> svd(covarianceMatrix, Eigen::ComputeThinU)` of Ellipse.cpp is an ORACLE record (its
+    # constructor arguments: the 2x2 matrix as a dynamic-size value with literal sizes, the flag as source text); `singularValues()` /
+    # `matrixU()` are uninterpreted functions of them (parameters of the translated functions), any other method is untranslatable
+    'dyn_sizes': True,
+    'oracle_classes': {'JacobiSVD': {'methods': {'singularValues': ['(min {r0} {c0})'], 'matrixU': ['{r0}', '(min {r0} {c0})']}}},
     'extra': ['namespace romea { namespace core {',
               'template Eigen::Matrix<double, 3, 3> toSe2Covariance<double>(const Eigen::Matrix<double, 6, 6> &);',
               'template Eigen::Matrix<double, 6, 6> toSe3Covariance<double>(const Eigen::Matrix<double, 3, 3> &);', '}}'],
@@ -528,6 +535,13 @@ BRIDGE_SPEC = {
         {'cxx': 'toTwist2D', 'sig': 'void (const romea::core::Twist3D &, romea::core::Twist2D &)'},
         {'cxx': 'toTwist2D', 'sig': 'romea::core::Twist2D (const romea::core::Twist3D &)', 'suffix': '_ret'},
         {'cxx': 'toPoseAndTwist2D', 'sig': 'void ('},
+        {'cxx': 'Ellipse::Ellipse', 'sig': 'Matrix2d'},
+        {'cxx': 'Ellipse::Ellipse', 'sig': 'void (const double &, const double &, const double &, const double &, const double &)', 'suffix': '_xy'},
+        {'cxx': 'Ellipse::Ellipse', 'sig': 'void (const Eigen::Vector2d &, const double &, const double &, const double &)', 'suffix': '_center'},
+        {'cxx': 'Ellipse::getCenterPosition'}, {'cxx': 'Ellipse::getOrientation'},
+        {'cxx': 'Ellipse::getMajorRadius'}, {'cxx': 'Ellipse::getMinorRadius'},
+        {'cxx': 'uncertaintyEllipse', 'sig': 'Position2D', 'suffix': '_position'},
+        {'cxx': 'uncertaintyEllipse', 'sig': 'Pose2D', 'suffix': '_pose'},
     ],
 }
 
